@@ -22,7 +22,7 @@ ASSUMPTIONS = ['the distance a code denotes is computed by the check (N m, 1000 
                '1e-4 (the tables\' resolution) absorbs the 1 609 m vs 1 609.344 m mile used by get_distance',
                'the factor of the bracketing tabulated rows is obtained through the public function (decided by C14)']
 
-AGES = [35, 50, 72.5, 90, 100]
+AGES = [35, 47.25, 50, 61.75, 72.5, 83.1, 90, 100]      # whole, half and other fractional ages
 _tab = {}
 
 
